@@ -415,3 +415,36 @@ package shaping
 //@   loop 1 invariant [chain] forall(k, len(buffer0), len(buffer)-1, buffer[k].RunEnd == buffer[k+1].RunStart)
 //@   loop 1 invariant [non-empty] forall(k, len(buffer0), len(buffer), buffer[k].RunStart < buffer[k].RunEnd && buffer[k].Face != nil && sameRunFields(buffer[k], input))
 //@   loop 1 invariant [frame-spare] (rid(buffer) == rid(buffer0) && off(buffer) == off(buffer0) && cap(buffer) == cap(buffer0)) || fresh(buffer)
+//
+// lookupDelimIndex: bisection over the sorted table of paired delimiters (table invariant checked on the literal).
+//@ data pairedDelimsSorted C07 : forall(k, 0, len(pairedDelims), forall(l, k+1, len(pairedDelims), pairedDelims[k] < pairedDelims[l]))
+//@ func lookupDelimIndex C07
+//@   mode int
+//@   requires [data-pairedDelimsSorted] forall(k, 0, len(pairedDelims), forall(l, k+1, len(pairedDelims), pairedDelims[k] < pairedDelims[l]))
+//@   ensures [found] implies(result >= 0, result < len(pairedDelims) && pairedDelims[result] == ch)
+//@   ensures [absent] implies(result < 0, result == -1 && forall(k, 0, len(pairedDelims), pairedDelims[k] != ch))
+//@   modifies nothing
+//@   loop 1 invariant [bounds] 0 <= lower && upper < len(pairedDelims) && lower <= upper+1
+//@   loop 1 invariant [left] forall(k, 0, lower, pairedDelims[k] < ch)
+//@   loop 1 invariant [right] forall(k, upper+1, len(pairedDelims), pairedDelims[k] > ch)
+//@   loop 1 decreases upper - lower + 1
+//
+// Vertical orientation pass: same partition contract; every rune of an output run has the run's orientation.
+//@ opaque sidewaysRune(vo unicodedata.ScriptVerticalOrientation, r rune) bool
+//@ trusted unicodedata.ScriptVerticalOrientation.Orientation
+//@   ensures [def] isSideways == sidewaysRune(sv, r)
+//@   modifies nothing
+//@ opaque scriptOrientation(s language.Script) unicodedata.ScriptVerticalOrientation
+//
+// Segmenter.reset: the three reused buffers are emptied, so Split's result depends on its arguments only (C13 shares this).
+//@ func Segmenter.reset C07 C13
+//@   mode int
+//@   ensures [emptied] len(seg.input) == 0 && len(seg.output) == 0 && len(seg.delimStack) == 0
+//@   modifies unspecified
+//
+//@ func enforceLang C07
+//@   mode int
+//@   ensures [keeps-compatible] implies(lang.UseScript(s), result == lang)
+//@   ensures [replaces] implies(!lang.UseScript(s) && has(language.ScriptToLang, s) && language.ScriptToLang[s] != 0, result == language.ScriptToLang[s])
+//@   ensures [else-unchanged] implies(!lang.UseScript(s) && !(has(language.ScriptToLang, s) && language.ScriptToLang[s] != 0), result == lang)
+//@   modifies nothing
